@@ -33,6 +33,8 @@ def main(tier):
     ck.rule("R-C03-3", "give table independent of the cache flags (4 combinations)", floor=12)
     ck.rule("R-C03-4", "coarse LevelCache == fresh LevelCache on the coarse grid (all arrays, 4 flag combinations)", floor=8)
     ck.rule("R-C03-5", "row sums equal the mass term (consistency of the stencil)", floor=4)
+    ck.rule("R-C03-7", "build_rhs_f: source term at (r_i, theta_j) on operator rows, boundary data on Dirichlet rows, every node written once", floor=4)
+    ck.rule("R-C03-6", "rhs discretisation: factor * beta == row sum of the operator (i_r >= 1); Dirichlet rows untouched; cached == uncached", floor=4)
     prog = tab_ops.load()
     ck.units += prog.units
     for qn in ("ResidualGive::computeResidual", "ResidualGive::applyCircleSection", "ResidualGive::applyRadialSection", "ResidualTake::computeResidual",
@@ -123,6 +125,79 @@ def main(tier):
             ck.violation("R-C03-5", "row-sum", site_g, "%s: row (%d,%d): sum of the entries minus the mass term 0.25(h1+h2)(k1+k2) beta |detDF| is %s (a constant function is not mapped to beta*u)" % ((sk,) + bad))
         else:
             ck.ok("R-C03-5", sk)
+        # ---- R-C03-6 rhs scaling
+        ck.instance("R-C03-6", sk)
+        from gmg.symdom import SArr
+        from gmg.dag import Lin
+        fn_d = prog.fn("GMGPolar::discretize_rhs_f")
+        ck.analysed(fn_d)
+        facs = {}
+        bad = None
+        for fl in ((True, True), (False, False), (True, False)):
+            lvl = symdom.make_level(0, g, S.cache(*fl))
+            gm = tab_ops.make_gmgpolar(S, [lvl])
+            v = SArr("rhs_f", S.N, gen=lambda j: Lin.var(("f", j)))
+            S.it.call_function(fn_d, gm, [Cell(lvl), Cell(v)])
+            w = {}
+            for i in range(S.N):
+                val = v.sym.get(i)
+                if val is None:
+                    w[i] = dag.ONE  # untouched
+                elif isinstance(val, Lin) and set(val.t) == {("f", i)}:
+                    w[i] = val.t[("f", i)]
+                else:
+                    bad = "rhs_f[%d] becomes %s" % (i, val)
+            facs[fl] = w
+        if not bad:
+            w0 = facs[(True, True)]
+            for fl, w in facs.items():
+                for i in range(S.N):
+                    if not dag.equal(w[i], w0[i]):
+                        bad = "node %s: scaling with caches %s is %s, fully cached %s" % (S.rt(i), fl, dag.show(w[i], 80), dag.show(w0[i], 80))
+                        break
+            for i, row in Ag.items():
+                r, t = S.rt(i)
+                if S.dirichlet(i):
+                    if not dag.equal(w0[i], dag.ONE):
+                        bad = "Dirichlet node %s: boundary data is scaled by %s" % (S.rt(i), dag.show(w0[i], 60))
+                elif r >= 1:
+                    if not dag.equal(dag.mul(w0[i], beta.sym[r]), dag.total(row.values())):
+                        bad = "node %s: rhs factor * beta = %s but the operator's row sum is %s" % (S.rt(i), dag.show(dag.mul(w0[i], beta.sym[r]), 100), dag.show(dag.total(row.values()), 100))
+                if bad:
+                    break
+        if bad:
+            ck.violation("R-C03-6", "discretize_rhs_f", ir.locstr(fn_d), "%s: %s" % (sk, bad))
+        else:
+            ck.ok("R-C03-6", sk)
+        # ---- R-C03-7 rhs build
+        ck.instance("R-C03-7", sk)
+        fn_b = prog.fn("GMGPolar::build_rhs_f")
+        ck.analysed(fn_b)
+        lvl = symdom.make_level(0, g, S.cache(True, True))
+        gm = tab_ops.make_gmgpolar(S, [lvl])
+        v = SArr("rhs_f", S.N)
+        S.it.call_function(fn_b, gm, [Cell(lvl), Cell(v)])
+        bad = None
+        rr, aa = g.f["radii_"].get(), g.f["angles_"].get()
+        for i in range(S.N):
+            r, t = S.rt(i)
+            args = (rr.gen(r), aa.gen(t), dag.func("sin", aa.gen(t)), dag.func("cos", aa.gen(t)))
+            if r == nr - 1:
+                want = dag.func("boundary.u_D", *args)
+            elif r == 0 and dirbc:
+                want = dag.func("boundary.u_D_Interior", *args)
+            else:
+                want = dag.func("source.rhs_f", *args)
+            got = v.sym.get(i)
+            if got is None or not dag.equal(dag.lift(got), want):
+                bad = "node %s receives %s, expected %s" % (S.rt(i), dag.show(dag.lift(got), 80) if got is not None else None, dag.show(want, 80))
+                break
+        if not bad and len(v.writes) != S.N:
+            bad = "%d writes for %d nodes" % (len(v.writes), S.N)
+        if bad:
+            ck.violation("R-C03-7", "build_rhs_f", ir.locstr(fn_b), "%s: %s" % (sk, bad))
+        else:
+            ck.ok("R-C03-7", sk)
         # ---- R-C03-4 coarse caches
         if (nr - 1) % 2 == 0 and nt % 2 == 0:
             cg_grid = symdom.coarse_of(g, min(2, (nr + 1) // 2))
